@@ -531,10 +531,28 @@ fn rows_stage(raw: result::RawMetadataAndRawRows) -> String {
             }
         }
     }
-    // typed decoding: crash / hang / allocation oracle only (value decoding is C01's model)
+    // typed decoding into `Row` (dynamic `CqlValue`s), consumed until its first error: compared with the model
+    let typed = {
+        let mut n = 0usize;
+        let mut failed = false;
+        if let Ok(it) = dm.rows_iter::<Row>() {
+            for r in it {
+                if n >= cap {
+                    break;
+                }
+                if r.is_err() {
+                    failed = true;
+                    break;
+                }
+                n += 1;
+            }
+        }
+        format!(" typed={}{}", n, if failed { ":err" } else { "" })
+    };
+    // further typed targets: crash / hang / allocation oracle only
     typed_decoders(&dm, cap);
     let rows_s = if ncols == 0 { format!("rows0={}", nrows) } else { format!("rows={}", lst(&rows)) };
-    format!("src={} {} rc={} {}{}", src, meta_str(dm.metadata()), dm.rows_count(), rows_s, rowerr)
+    format!("src={} {} rc={} {}{}{}", src, meta_str(dm.metadata()), dm.rows_count(), rows_s, rowerr, typed)
 }
 
 fn row_err_pos(e: &scylla_cql::deserialize::DeserializationError) -> (usize, String) {
@@ -758,7 +776,15 @@ fn pipeline_inner(c: &FrameCase) -> String {
         lst(&ext.warnings.iter().map(|w| hexs(w)).collect::<Vec<_>>()),
         payload
     ));
-    // tablets routing payload (decoded by the session when present): crash oracle only
+    // tablets routing payload (`RawTablet::from_custom_payload`, decoded by the session when the key is present)
+    if let Some(map) = &ext.custom_payload {
+        let t = match scylla::verif_hooks::tablets::raw_tablet_from_payload(map) {
+            None => "none".to_owned(),
+            Some(Ok((a, b, reps))) => format!("ok:{}:{}:{}", a, b, reps.len()),
+            Some(Err(k)) => format!("err:{}", k),
+        };
+        line.push_str(&format!(" tab={}", t));
+    }
     let cached = if c.cached { Some(cached_metadata()) } else { None };
     // the legacy `Response` enum goes through the same decoders (EVENT without client routes): crash oracle only
     let _ = scylla_cql::frame::response::Response::deserialize(&c.features, opcode, ext.body.clone(), cached.as_ref());
@@ -849,7 +875,9 @@ fn finish(o: Option<Outcome>, input_len: usize, expect: &str, ctx: &mut Ctx) -> 
             }
             if expect != "-" {
                 let want = u64::from_str_radix(expect, 16).unwrap_or(0);
-                if fnv(&line) != want {
+                // the typed-decoding token is not part of what the independent encoder predicts
+                let predicted: String = line.split(' ').filter(|w| !w.starts_with("typed=") && !w.starts_with("tab=")).collect::<Vec<_>>().join(" ");
+                if fnv(&predicted) != want {
                     ctx.fail(format!("well-formed frame did not decode to what was encoded: got `{}`", &line[..line.len().min(300)]));
                 }
             }
